@@ -1,7 +1,7 @@
 (* One entry point for the OCaml runner: op name and byte-string arguments
    in, (result bytes, tag text) out.  All structure is decoded here, in Coq. *)
 From Coq Require Import NArith ZArith List Bool String.
-From GJ Require Import Base.Bytes Base.Show Model.Int Model.StrEnc Model.StrDec Model.Compact Model.Iface Model.Path Model.KeyBitmap Spec.Json Gen.Resets Model.Mem Base.TypeAddrBase Gen.TypeAddr Model.TypeCache Model.Stream Model.StreamInst Model.Enc Model.EncIndent Gen.Query Model.Query Model.Decode Model.EncTyped Model.Skip Model.PathEval Model.PathTags Gen.SliceShape Model.SlicePool.
+From GJ Require Import Base.Bytes Base.Show Model.Int Model.StrEnc Model.StrDec Model.Compact Model.Iface Model.Path Model.KeyBitmap Spec.Json Gen.Resets Model.Mem Base.TypeAddrBase Gen.TypeAddr Model.TypeCache Model.Stream Model.StreamInst Model.Enc Model.EncIndent Gen.Query Model.Query Model.Decode Model.EncTyped Model.Skip Model.PathEval Model.PathTags Gen.SliceShape Model.SlicePool Model.FieldRes.
 Import ListNotations.
 Open Scope N_scope.
 Open Scope string_scope.
@@ -42,6 +42,10 @@ Definition parse_ta (line : list N) : typeaddr :=
   {| ta_base := dec_N (nthl 0 f); ta_max := dec_N (nthl 1 f); ta_range := dec_N (nthl 2 f); ta_shift := dec_N (nthl 3 f) |}.
 Definition show_slot (s : slot) : list N :=
   match s with Slow => str "slow" | Fast i => show_N i | Panic => str "panic" end.
+
+Fixpoint sep_by (sep : N) (l : list (list N)) : list N :=
+  match l with [] => [] | [x] => x | x :: r => x ++ sep :: sep_by sep r end.
+Definition show_path (p : list nat) : list N := sep_by 46 (map (fun i => show_N (N.of_nat i)) p).
 
 Definition dispatch (op : list N) (args : list (list N)) : list N * list N :=
   if list_eqb op (str "c16.enc_int") then
@@ -128,6 +132,23 @@ Definition dispatch (op : list N) (args : list (list N)) : list N * list N :=
        | Some l => List.concat (map (fun x => show_N (N.of_nat x) ++ [44]) l)
        end in
      List.concat (map (fun r => show_call r ++ [59]) (calls slice_clears {| contents := fun _ => 0%nat; capacity := 2 |} (map parse_doc args))), [])
+  else if list_eqb op (str "c15.resolve") then
+    (* arg0: a struct shape (wire format of Model/FieldRes.v), arg1: a name; result: the index path of the field the
+       name selects, or "-" *)
+    (match parse_struct (arg 0 args) with
+     | Some fs =>
+         match select fs (arg 1 args) with
+         | Some p => show_path p
+         | None => [45]
+         end
+     | None => str "unparsed"
+     end, [])
+  else if list_eqb op (str "c15.members") then
+    (* arg0: a struct shape; result: the members Marshal writes, name=path, in order *)
+    (match parse_struct (arg 0 args) with
+     | Some fs => sep_by 44 (map (fun m => fst m ++ [61] ++ show_path (snd m)) (members fs))
+     | None => str "unparsed"
+     end, [])
   else if list_eqb op (str "c15.bitmap") then
     (* arg0 = sorted lower-cased names separated by LF, arg1 = decoded key *)
     (let names := split_on 10 (arg 0 args) in
